@@ -9,7 +9,8 @@ EXTENDS CoDict, TLC, Json, SequencesExt
 CONSTANTS U,          \* universe of lookup entries (records idx, sub, flags)
           Probes,     \* keys looked up: <<idx, sub, flags>>
           AccDict,    \* the access dictionary: sequence of entry records (with field args for the harness)
-          NodeIds, Lens, Bases
+          NodeIds, Lens, Bases,
+          ValMode     \* "b": boundary values; "x": all 8-bit values, 36 16-bit values (boundary bytes squared), 21 32-bit values
 VARIABLE dummy
 
 Step(e, x) == [e |-> e, x |-> x]
@@ -38,9 +39,15 @@ ASSUME \A S \in SUBSET U : PrintT(<<"BEH", ToJson(LookupBeh(S))>>)
 
 \* ---------------- typed and buffer access ---------------------------------
 W(e) == e.w
-Vals(w) == IF w = 1 THEN {<<0>>, <<1>>, <<127>>, <<128>>, <<255>>, <<2>>}
-           ELSE IF w = 2 THEN {<<0,0>>, <<1,0>>, <<255,0>>, <<0,1>>, <<255,127>>, <<0,128>>, <<255,255>>, <<126,0>>}
-           ELSE {<<0,0,0,0>>, <<1,0,0,0>>, <<255,255,0,0>>, <<0,0,1,0>>, <<255,255,255,127>>, <<0,0,0,128>>, <<255,255,255,255>>, <<126,0,0,0>>, <<120,86,52,18>>}
+BB == {0, 1, 127, 128, 254, 255}
+ValsB(w) == IF w = 1 THEN {<<0>>, <<1>>, <<127>>, <<128>>, <<255>>, <<2>>}
+            ELSE IF w = 2 THEN {<<0,0>>, <<1,0>>, <<255,0>>, <<0,1>>, <<255,127>>, <<0,128>>, <<255,255>>, <<126,0>>}
+            ELSE {<<0,0,0,0>>, <<1,0,0,0>>, <<255,255,0,0>>, <<0,0,1,0>>, <<255,255,255,127>>, <<0,0,0,128>>, <<255,255,255,255>>, <<126,0,0,0>>, <<120,86,52,18>>}
+Vals(w) == IF ValMode = "b" THEN ValsB(w)
+           ELSE IF w = 1 THEN {<<v>> : v \in 0..255}
+           ELSE IF w = 2 THEN {<<a, b>> : a \in BB, b \in BB}
+           ELSE ValsB(4) \cup {<<0,0,0,1>>, <<0,1,0,0>>, <<255,0,0,0>>, <<0,255,0,0>>, <<0,0,255,0>>, <<0,0,0,255>>, <<255,255,255,0>>, <<0,255,255,255>>,
+                                 <<254,255,255,255>>, <<128,0,0,0>>, <<0,128,0,0>>, <<0,0,128,0>>}
 RoundTrip == \A p \in 1..Len(AccDict), n \in NodeIds : LET e == AccDict[p] IN
                e.kind = "int" => \A v \in Vals(e.w) :
                  /\ RdTyped(WrTyped(e, n, e.w, v).e, n, e.w).val = v
